@@ -3626,4 +3626,214 @@ theorem winv_run {n : Nat} (h : List WEv) : ∀ (w : World), WInv n w → WHistO
       | policy p fi => exact ok
     exact ih (stepW w e) (winv_step hw ok1) okr
 
+
+/-! ### completeness of the "all answers" form: every listed answer is produced by some random source -/
+
+/-- number of reservoir candidates (entries other than `x`) -/
+def nCands (x : Nat) (es : List Entry) : Nat := (es.filter (fun e => e.d != x)).length
+
+theorem reservoir_count (rnd : Nat → Nat) (x : Nat) (es : List Entry) :
+    ∀ acc : Option Nat × Nat, (es.foldl (reservoirStep rnd x) acc).2 = acc.2 + nCands x es := by
+  induction es with
+  | nil => intro acc; simp [nCands]
+  | cons e es ih =>
+    intro acc
+    rw [List.foldl_cons, ih]
+    unfold reservoirStep nCands
+    by_cases h : e.d = x
+    · simp [h]
+    · have : (e.d != x) = true := by simp [h]
+      simp only [h, if_false, List.filter_cons, this, if_true, List.length_cons]
+      split <;> simp <;> omega
+
+/-- with `rnd k = 1` for every `k > j` (and `j ≥ 1`) a choice made at count `≥ j` is never replaced -/
+theorem reservoir_keeps (rnd : Nat → Nat) (x j : Nat) (hj : 1 ≤ j) (hr : ∀ k, j < k → rnd k = 1)
+    (es : List Entry) : ∀ (c : Option Nat) (cnt : Nat), j ≤ cnt →
+      (es.foldl (reservoirStep rnd x) (c, cnt)).1 = c := by
+  induction es with
+  | nil => intro c cnt _; rfl
+  | cons e es ih =>
+    intro c cnt hc
+    rw [List.foldl_cons]
+    unfold reservoirStep
+    by_cases h : e.d = x
+    · simp only [h, if_true]; exact ih c cnt hc
+    · simp only [h, if_false]
+      have h1 : rnd (cnt + 1) = 1 := hr _ (by omega)
+      have h2 : ¬ (1 % (cnt + 1) = 0) := by
+        have : 1 < cnt + 1 := by omega
+        rw [Nat.mod_eq_of_lt this]; omega
+      rw [h1, if_neg h2]
+      exact ih c (cnt + 1) (by omega)
+
+theorem getRand_complete {s : ASet} {excl : Option Nat} {c : Nat} (hc : c ∈ randCands s excl) :
+    ∃ rnd, getRand rnd s excl = some c := by
+  obtain ⟨⟨e0, he0, hd0⟩, hne⟩ := (mem_randCands s excl c).mp hc
+  have hne' : s.entries.isEmpty = false := by
+    cases hq : s.entries with
+    | nil => rw [hq] at he0; cases he0
+    | cons a l => rfl
+  unfold getRand
+  simp only [hne', Bool.false_eq_true, if_false]
+  cases excl with
+  | none =>
+    obtain ⟨i, hi⟩ := List.mem_iff_getElem?.mp he0
+    have hlt : i < s.entries.length := (List.getElem?_eq_some_iff.mp hi).1
+    refine ⟨fun _ => i, ?_⟩
+    simp only [Nat.mod_eq_of_lt hlt, hi, Option.map_some, hd0]
+  | some x =>
+    have hcx : c ≠ x := fun h => hne (by rw [h])
+    obtain ⟨pre, post, hsplit⟩ := List.append_of_mem he0
+    let j := nCands x pre + 1
+    refine ⟨fun k => if k ≤ j then 0 else 1, ?_⟩
+    simp only
+    rw [hsplit, List.foldl_append, List.foldl_cons]
+    have hcnt := reservoir_count (fun k => if k ≤ j then 0 else 1) x pre (none, 0)
+    -- state after the prefix: count = j - 1
+    generalize hst : pre.foldl (reservoirStep (fun k => if k ≤ j then 0 else 1) x) (none, 0) = st at hcnt
+    have h2 : st.2 = j - 1 := by simp [hcnt, j]
+    have hstep : reservoirStep (fun k => if k ≤ j then 0 else 1) x st e0 = (some c, j) := by
+      unfold reservoirStep
+      have : ¬ e0.d = x := by rw [hd0]; exact hcx
+      simp only [this, if_false, h2]
+      have hj : j - 1 + 1 = j := by simp [j]
+      rw [hj]
+      simp [hd0]
+    rw [hstep]
+    exact reservoir_keeps _ x j (by simp [j]) (by intro k hk; simp; omega) post (some c) j (Nat.le_refl _)
+
+theorem firstPick_transfer {α β} {p1 : NetType → Option α} {p2 : NetType → Option β} {ts : List NetType}
+    {ty : NetType} {c : β} {d : α} (hnone : ∀ ty', p2 ty' = none → p1 ty' = none)
+    (h2 : firstPick p2 ts = some (ty, c)) (h1 : p1 ty = some d) : firstPick p1 ts = some (ty, d) := by
+  induction ts with
+  | nil => simp [firstPick] at h2
+  | cons t ts ih =>
+    unfold firstPick at h2 ⊢
+    cases hp : p2 t with
+    | some c' =>
+      rw [hp] at h2
+      simp only [Option.some.injEq, Prod.mk.injEq] at h2
+      obtain ⟨ht, _⟩ := h2
+      subst ht
+      rw [h1]
+    | none =>
+      rw [hp] at h2
+      rw [hnone t hp]
+      exact ih h2
+
+theorem select1All_complete (g : Group) (t : NetType) (p : Policy) (fi : Int) (excl : Option Nat)
+    {l : List SelOk} (hl : select1All g t p fi excl = .ok l) {x : SelOk} (hx : x ∈ l) :
+    ∃ r : Nat → Nat, select1 (fun _ => r) g t p fi excl = .ok x := by
+  by_cases hr : p = .random
+  · subst hr
+    unfold select1All at hl
+    simp only at hl
+    by_cases hn : g.n = 0
+    · simp [hn] at hl
+    · simp only [hn, if_false] at hl
+      cases hf : firstPick (fun ty =>
+          let c := randCands (g.sets ty.index) excl
+          if c.isEmpty then none else some c) (chain t .random) with
+      | none => rw [hf] at hl; cases hl
+      | some r0 =>
+        obtain ⟨ty, c⟩ := r0
+        rw [hf] at hl
+        simp only [Except.ok.injEq] at hl
+        subst hl
+        obtain ⟨d, hd, hxd⟩ := List.mem_map.mp hx
+        obtain ⟨_, hpick⟩ := firstPick_some hf
+        simp only at hpick
+        have hc : c = randCands (g.sets ty.index) excl := by
+          split at hpick
+          · cases hpick
+          · exact (Option.some.inj hpick).symm
+        rw [hc] at hd
+        obtain ⟨r, hr⟩ := getRand_complete hd
+        refine ⟨r, ?_⟩
+        rw [select1_random]
+        simp only [hn, if_false]
+        have := firstPick_transfer (p1 := fun ty => getRand r (g.sets ty.index) excl)
+          (p2 := fun ty =>
+            let c := randCands (g.sets ty.index) excl
+            if c.isEmpty then none else some c) (by
+            intro ty' h'
+            simp only at h'
+            apply (getRand_none_iff _ _ _).mpr
+            split at h'
+            · rename_i he; simpa using he
+            · cases h') hf hr
+        rw [this]
+        simp only
+        rw [← hxd]
+  · have hall : select1All g t p fi excl = (select1 (fun _ _ => 0) g t p fi excl).map (fun r => [r]) := by
+      cases p <;> simp_all [select1All]
+    rw [hall] at hl
+    refine ⟨fun _ => 0, ?_⟩
+    cases hs : select1 (fun _ _ => 0) g t p fi excl with
+    | error e => rw [hs] at hl; cases hl
+    | ok y =>
+      rw [hs] at hl
+      simp only [Except.map, Except.ok.injEq] at hl
+      subst hl
+      simp only [List.mem_singleton] at hx
+      subst hx
+      rfl
+
+theorem selectAll_complete (g : Group) (t : NetType) (strict : Bool) (excl : Option Nat)
+    {l : List SelOk} (hl : selectAll g t strict excl = .ok l) {x : SelOk} (hx : x ∈ l) :
+    ∃ rnd, select rnd g t strict excl = .ok x := by
+  have m0 := fun r => select1_mem_all (fun _ => r) g t g.policy g.fixedIdx excl
+  unfold selectAll at hl
+  cases h0 : select1All g t g.policy g.fixedIdx excl with
+  | ok l0 =>
+    rw [h0] at hl
+    simp only [Except.ok.injEq] at hl
+    subst hl
+    obtain ⟨r, hr⟩ := select1All_complete g t g.policy g.fixedIdx excl h0 hx
+    refine ⟨fun _ _ => r, ?_⟩
+    unfold select
+    rw [hr]
+  | error e =>
+    rw [h0] at hl
+    -- the first `_select` errs for every random source
+    have herr : ∀ r : Nat → Nat, select1 (fun _ => r) g t g.policy g.fixedIdx excl = .error e := by
+      intro r
+      have := m0 r
+      cases hq : select1 (fun _ => r) g t g.policy g.fixedIdx excl with
+      | ok y => rw [hq] at this; obtain ⟨l', hl', _⟩ := this; rw [h0] at hl'; cases hl'
+      | error e' => rw [hq] at this; simp only at this; rw [h0] at this; cases this; rfl
+    cases e with
+    | noAlive =>
+      simp only at hl
+      cases strict
+      · simp only [Bool.not_false, if_true] at hl
+        obtain ⟨r, hr⟩ := select1All_complete g t.flip g.policy g.fixedIdx excl hl hx
+        refine ⟨fun _ _ => r, ?_⟩
+        unfold select
+        rw [herr r]
+        simp only [Bool.not_false, if_true]
+        exact hr
+      · simp only [Bool.not_true, Bool.false_eq_true, if_false] at hl
+        by_cases hn : g.n = 1
+        · simp only [hn, if_true] at hl
+          cases h2 : select1All g t .fixed 0 excl with
+          | error e2 => rw [h2] at hl; cases hl
+          | ok l2 =>
+            rw [h2] at hl
+            simp only [Except.ok.injEq] at hl
+            subst hl
+            obtain ⟨y, hy, hxy⟩ := List.mem_map.mp hx
+            obtain ⟨r, hr⟩ := select1All_complete g t .fixed 0 excl h2 hy
+            refine ⟨fun _ _ => r, ?_⟩
+            unfold select
+            rw [herr r]
+            simp only [Bool.not_true, Bool.false_eq_true, if_false, hn, if_true]
+            rw [hr]
+            simp only
+            rw [← hxy]
+        · simp [hn] at hl
+    | noDialers => cases hl
+    | outOfRange => cases hl
+    | unsupported => cases hl
+
 end DaeVerif.C15
